@@ -13,6 +13,7 @@ CONSTANTS
   MaxFail = 1
   MaxReq = 1
   MaxLook = 0
+  MaxLag = 1
   SharedTx = FALSE
   Boots = TRUE
   Profile = "poll"
